@@ -204,14 +204,18 @@ def bulk_tree_case(seed, n, shape="uniform", regime="float", soma_root=True, mag
             "shape": "bulk-" + shape, "regime": regime, "permuted": False}
 
 
-def build_tree(case, extras=True, source="", comments=None, strided=False, aliased=False):
+# column names the extended SWC format reserves; a tree may carry any per-node measurement under any name
+ESWC_NAMES = ["feature_value", "level", "mode", "timestamp", "teraflyindex", "seg_id", "creatmode", "tfresindex"]
+
+
+def build_tree(case, extras=True, source="", comments=None, strided=False, aliased=False, more=None):
     """`strided`: x, y, z, r are handed over as the columns of one (n, 4) float32 array (non-contiguous views), the
     way a caller holding an xyzr matrix would.  `aliased`: a third extra column `w2` is given as the very same array
     object as `w` (one measurement registered under two names)."""
     from swcgeom.core import Tree
 
     n = len(case["parents"])
-    kw = {}
+    kw = dict(more or {})  # further extra columns: name -> array
     if aliased and extras and "tag" in case:
         wcol = np.array(case["w"], dtype=np.float32)
         return Tree(n, id=np.arange(n, dtype=np.int32), pid=np.array(case["parents"], dtype=np.int32),
